@@ -10,12 +10,17 @@ MODULES = ["GV.Props.C02"]
 
 def documented(desc, decision):
     """the property's exception list, evaluated on the implementation's own descriptor (impl-level oracle)"""
-    kind, name, cls, opath, toobf, gaid, recv, ts, intr, sh = desc.split("|")
+    kind, name, cls, opath, toobf, gaid, recv, ts, intr, sh, emb = desc.split("|")
     if decision != "keep":
         return True
+    if emb == "?":
+        return True      # embedded predeclared type
+    if emb != "-":
+        tn, tcls, tpath = emb.split(",")
+        return documented("|".join(["type", tn, tcls, tpath, toobf if tpath == opath else "?", gaid, "0", "0", "0", "-", "-"]), decision)
     nm = unhex(name).decode("utf-8", "replace")
     path = unhex(opath).decode() if opath != "-" else None
-    if path is None or toobf == "0" or kind in ("const", "pkgname", "label", "other"):
+    if path is None or toobf in ("0", "?") or kind in ("const", "pkgname", "label", "other"):
         return True
     if (path in ("sync/atomic", "runtime/internal/atomic") and nm == "align64") or (path == "embed" and nm == "FS") or \
        (path == "reflect" and nm in ("Method", "MethodByName")) or (path == "crypto/x509/pkix" and nm.endswith("SET")):
